@@ -183,3 +183,62 @@ package types
 //@   requires envEntriesOK(dom(labelledTypesEnv), vals(labelledTypesEnv))
 //@   ensures C10.wf: (result == nil) == wfTy(t, dom(labelledTypesEnv), vals(labelledTypesEnv))
 //@   safety C09, C10
+
+// ---- the environment built from the list of definitions, as mathematical values
+
+//@ spec defNames(defs []SessionTypeDefinition, n int) Set[string] = ite(n <= 0, emptyStrSet, add(defNames(defs, n - 1), defs[n-1].Name))
+//@ spec defVals(defs []SessionTypeDefinition, n int) Arr[string]LabelledType = ite(n <= 0, zeroArr(string, LabelledType),
+//@        store(defVals(defs, n - 1), defs[n-1].Name, mk(LabelledType, defs[n-1].Name, defs[n-1].Modality, defs[n-1].SessionType)))
+//@ macro defsShape(defs []SessionTypeDefinition) bool = forall k int :: 0 <= k && k < len(defs) ==> defs[k].SessionType != nil && shapeOK(defs[k].SessionType) && defs[k].Modality != nil
+//@ macro envFromDefs(D Set[string], V Arr[string]LabelledType, defs []SessionTypeDefinition) bool =
+//@        forall n string :: D[n] ==> (exists k int :: 0 <= k && k < len(defs) && defs[k].Name == n && V[n].Type == defs[k].SessionType && V[n].Mode == defs[k].Modality)
+
+//@ contract ProduceLabelledSessionTypeEnvironment
+//@   ensures C10.envNames: result != nil && fresh(result) && dom(result) == defNames(typeDefs, len(typeDefs))
+//@   ensures C10.envVals: vals(result) == defVals(typeDefs, len(typeDefs))
+//@   ensures C10.envFrom: envFromDefs(dom(result), vals(result), typeDefs)
+//@   ensures C10.envAll: forall k int :: 0 <= k && k < len(typeDefs) ==> has(result, typeDefs[k].Name)
+//@   loop 1 invariant labelledTypesEnv != nil && dom(labelledTypesEnv) == defNames(typeDefs, idx + 1) && vals(labelledTypesEnv) == defVals(typeDefs, idx + 1)
+//@   loop 1 invariant (forall n string :: has(labelledTypesEnv, n) ==> (exists k int :: 0 <= k && k <= idx && typeDefs[k].Name == n && labelledTypesEnv[n].Type == typeDefs[k].SessionType && labelledTypesEnv[n].Mode == typeDefs[k].Modality))
+//@   loop 1 invariant (forall k int :: 0 <= k && k <= idx ==> has(labelledTypesEnv, typeDefs[k].Name))
+//@   safety C09, C10
+
+//@ contract LabelledTypedExists
+//@   ensures C10.exists: result == has(labelledTypesEnv, key)
+//@   safety C09
+//@   pure
+
+// ---- contractivity: following names from t reaches a structural type without meeting a name twice
+
+//@ spec contractive(t SessionType, V Arr[string]LabelledType, S Set[string]) bool =
+//@    !is(t, LabelType) || (!S[LabelType(t).Label] && contractive(V[LabelType(t).Label].Type, V, add(S, LabelType(t).Label)))
+//@ macro closedEnv(D Set[string], V Arr[string]LabelledType) bool = forall n string :: D[n] ==> V[n].Type != nil && shapeOK(V[n].Type) && labelsOK(V[n].Type, D)
+
+//@ contract interface SessionType.isContractive(self, env, snapshots)
+//@   requires shapeOK(self) && snapshots != nil && labelsOK(self, dom(env)) && closedEnv(dom(env), vals(env))
+//@   ensures C10.contractive: result == contractive(self, vals(env), old(dom(snapshots)))
+//@   safety C09, C10
+
+// ---- the two entry points of the preliminary checks
+
+//@ macro uniqueNames(defs []SessionTypeDefinition) bool = forall i int, j int :: 0 <= i && i < j && j < len(defs) ==> defs[i].Name != defs[j].Name
+
+//@ contract SanityChecksType
+//@   requires defsShape(typesDefs)
+//@   requires forall k int :: 0 <= k && k < len(types) ==> types[k] != nil && shapeOK(types[k])
+//@   ensures C10.types: (result == nil) == (forall k int :: 0 <= k && k < len(types) ==> wfTy(types[k], defNames(typesDefs, len(typesDefs)), defVals(typesDefs, len(typesDefs))))
+//@   loop 1 invariant (forall k int :: 0 <= k && k <= idx ==> wfTy(types[k], dom(labelledTypesEnv), vals(labelledTypesEnv)))
+//@   safety C09, C10
+
+//@ contract SanityChecksTypeDefinitions
+//@   requires defsShape(typesDefs)
+//@   ensures C10.defs: (result == nil) == (uniqueNames(typesDefs) &&
+//@        (forall k int :: 0 <= k && k < len(typesDefs) ==> wfTy(typesDefs[k].SessionType, defNames(typesDefs, len(typesDefs)), defVals(typesDefs, len(typesDefs))) &&
+//@              contractive(typesDefs[k].SessionType, defVals(typesDefs, len(typesDefs)), emptyStrSet)))
+//@   loop 1 invariant typeDefNames != nil
+//@   loop 1 invariant (forall i int, j int :: 0 <= i && i < j && j <= idx ==> typesDefs[i].Name != typesDefs[j].Name)
+//@   loop 1 invariant (forall k int :: 0 <= k && k <= idx ==> has(typeDefNames, typesDefs[k].Name))
+//@   loop 1 invariant (forall s string :: has(typeDefNames, s) ==> (exists k int :: 0 <= k && k <= idx && typesDefs[k].Name == s))
+//@   loop 2 invariant (forall k int :: 0 <= k && k <= idx ==> wfTy(typesDefs[k].SessionType, dom(labelledTypesEnv), vals(labelledTypesEnv)))
+//@   loop 3 invariant (forall k int :: 0 <= k && k <= idx ==> contractive(typesDefs[k].SessionType, vals(labelledTypesEnv), emptyStrSet))
+//@   safety C09, C10
